@@ -11,6 +11,7 @@ func init() {
 	vfRegister("VfRIB_q2", VfRIB_q2)
 	vfRegister("VfRIB_qNoFwd", VfRIB_qNoFwd)
 	vfRegister("VfRIB_q3", VfRIB_q3)
+	vfRegister("VfRIB_q3h", VfRIB_q3h)
 	vfRegister("VfRIB_qx", VfRIB_qx)
 	vfRegister("VfRIB_qo", VfRIB_qo)
 	vfRegister("VfRIB_qx2", VfRIB_qx2)
@@ -22,6 +23,7 @@ func init() {
 	vfRegister("VfRIB_t3e", VfRIB_t3e)
 	vfRegister("VfRIB_qPayload", VfRIB_qPayload)
 	vfRegister("VfRIB_qPayloadTop", VfRIB_qPayloadTop)
+	vfRegister("VfRIB_qPayloadEH", VfRIB_qPayloadEH)
 }
 
 // qPayload: next-hop operations carrying the extended payload (address, MAC, interface reference,
@@ -31,6 +33,14 @@ func init() {
 // an ADD over an installed next-hop replaces the WHOLE payload).
 func VfRIB_qPayload() {
 	vfRIBRun(vfRunCfg{pre: vfPreCfg{nNH: 1, nNHG: 1, members: 1}, fixLow: true, payload: true, steps: 1, members: 1, kinds: []int{vfKNH}})
+}
+
+// qPayloadEH: as qPayload with the next-hop payload drawn from the encapsulation-header shapes: one MPLS header
+// (index 0 or 255, stack of 2 labels, traffic class: ANY 64-bit numbers), one UDPv6 header with every field (ANY
+// numbers for DSCP / ports / TTL, valid addresses), or two headers in either index order with a valid or a
+// schema-invalid source address.
+func VfRIB_qPayloadEH() {
+	vfRIBRun(vfRunCfg{pre: vfPreCfg{nNH: 1, nNHG: 1, members: 1}, fixLow: true, payload: true, encap: true, steps: 1, members: 1, kinds: []int{vfKNH}})
 }
 
 // qPayloadTop: IPv4 / IPv6 / label entries with a decapsulate-header or a popped label stack (any 64-bit
@@ -101,6 +111,15 @@ func VfRIB_tOrder() {
 // retried), next to 1 next-hop and 1 group; one symbolic operation.
 func VfRIB_q3() {
 	vfRIBRun(vfRunCfg{pre: vfPreCfg{nNH: 1, nNHG: 1, nStale: 1, members: 1, topKinds: vfTopQ}, fixLow: true, steps: 1, members: 1})
+}
+
+// q3h: the stale held REPLACE of q3 NEXT TO two further held operations (groups waiting for a next-hop - one of
+// them possibly the very group the REPLACE waits for - or IPv4 entries), then one symbolic next-hop / group ADD
+// that starts a cascade; every iteration order of the held-operation map: the REPLACE fails exactly once, every
+// other operation that became resolvable is acknowledged in the same call, nothing resolvable stays held.
+func VfRIB_q3h() {
+	vfRIBRun(vfRunCfg{pre: vfPreCfg{nNH: 1, nNHG: 1, nStale: 1, nHeld: 2, members: 1, topKinds: []int{vfKV4}}, fixLow: true, lean: true, steps: 1, members: 1,
+		typLo: 1, typHi: 1, kinds: []int{vfKNH, vfKNHG}, mapOrder: true})
 }
 
 // qx: cross-instance references: a next-hop and a group in each of the two instances (the same group id may
